@@ -2,7 +2,9 @@ import Q1t.Proofs.PauliPhase
 import Q1t.Proofs.PauliAct
 import Q1t.Proofs.TableauRow
 import Q1t.Proofs.TableauStab
+import Q1t.Proofs.TableauNormalize
 import Q1t.Proofs.TableauTables
+import Q1t.Proofs.TableauBits
 import Q1t.Proofs.TableauFinite
 import Q1t.Proofs.TableauWitness
 /-!
@@ -104,6 +106,38 @@ theorem row_ops_preserve_group (t t' : Tab) :
       ∀ ψ, Stabilizes t' ψ ↔ Stabilizes t ψ) :=
   ⟨fun a b h => (swapRows_sameGroup t t' a b h).1,
    fun i0 i1 hwf hne h => (multiplyRow_sameGroup phaseTable_correct t t' i0 i1 hwf hne h).1⟩
+
+/-- **`normalize` is sound, all `n`**: on any tableau that stabilizes a non-zero vector, `normalize`
+returns — the assertion of `multiply_row` is never tripped and no row/column index leaves `0..n` — keeps
+`n`, and its result stabilizes exactly the same vectors (the stabilizer group is unchanged).
+(That the result is in reduced echelon form and that `normalize` is idempotent is checked for `n ≤ 2`
+below and by the correspondence run for larger `n`; not proved in general.) -/
+theorem normalize_sound (t : Tab) (ψ : Vec) (hst : Stabilizes t ψ) (hnz : Vec.isZero ψ = false) :
+    ∃ t', t.normalize Q1t.Gen.phaseTable = .ok t' ∧ t'.n = t.n ∧ ∀ φ, Stabilizes t' φ ↔ Stabilizes t φ :=
+  normalize_ok phaseTable_correct t ψ hst hnz
+
+/-! ## the `u64` packing (all `n`) -/
+
+/-- **Frame law of the bit packing, cells, all `n`**: after a successful `set_bits(i, j, op)` on the packed
+words (`idx = 2(i·n + j)`, word `idx >> 6`, offset `idx & 63`), `get_bits(i', j')` returns `op & 3` if
+`(i', j')` has the same address and the previous value otherwise; for in-range columns "same address"
+is `(i', j') = (i, j)`.  So the packed structure behaves as the `n × n` array of the row model. -/
+theorem bits_get_set (t t' : Q1t.TableauBits.TabBits) (i j op i' j' : Nat)
+    (h : Q1t.TableauBits.setBits t i j op = some t') :
+    t'.n = t.n ∧
+    Q1t.TableauBits.getBits t' i' j' =
+      (if i' * t.n + j' = i * t.n + j then some (op &&& 0x03) else Q1t.TableauBits.getBits t i' j') ∧
+    (j < t.n → j' < t.n → Q1t.TableauBits.getBits t' i' j' =
+      if i' = i ∧ j' = j then some (op &&& 0x03) else Q1t.TableauBits.getBits t i' j') :=
+  ⟨(Q1t.Proofs.TableauBits.getBits_setBits t t' i j op i' j' h).1,
+   (Q1t.Proofs.TableauBits.getBits_setBits t t' i j op i' j' h).2,
+   fun hj hj' => Q1t.Proofs.TableauBits.getBits_setBits_cell t t' i j op i' j' hj hj' h⟩
+
+/-- **Frame law of the bit packing, signs, all `n`**. -/
+theorem bits_sign_get_set (t t' : Q1t.TableauBits.TabBits) (i i' : Nat) (s : Bool)
+    (h : Q1t.TableauBits.setSign t i s = some t') :
+    Q1t.TableauBits.getSign t' i' = if i' = i then some s else Q1t.TableauBits.getSign t i' :=
+  Q1t.Proofs.TableauBits.getSign_setSign t t' i i' s h
 
 /-! ## FINITE: all stabilizer states of `n ≤ 2` qubits, kernel-checked -/
 
